@@ -560,6 +560,7 @@ def mapsets(scheme: str, size: str) -> dict[str, list[list[list[Any]]]]:
             small.append([[(("bool" if f[1] == "bool" else s), f[3][vi])] if f[2] else [None] for f in fields])
             small.append([[(("bool" if f[1] == "bool" else s), f[3][vi])] for f in fields])
     small.append([[(("bool" if f[1] == "bool" else all4[i % 4]), f[3][-1])] for i, f in enumerate(fields)])
+    small.append([[(("bool" if f[1] == "bool" else "hexu"), f[3][1])] for f in fields])  # upper-case hex digits
     out["small"] = small
     return out
 
@@ -708,7 +709,7 @@ def run_uri_generic(res: Result) -> None:
         res.uncovered.add(f"config-model-of-scheme:{scheme}(none: round trip only)")
         for h in HOSTS:
             for p in PORTS:
-                for args in ({}, {"a": "0x1"}, {"a": "1", "b_c": "0b10", "d": "x-y.z"}):
+                for args in ({}, {"a": "0x1"}, {"a": "1", "b_c": "0b10", "d": "x-y.z"}, {"S": "A b&c=d+E%2f#g/\u00fc;x", "t": "0XfF"}):
                     check_uri(res, scheme, h, p, None, args, True)
                     n += 1
     for m in G["unknown_models"]:
@@ -941,22 +942,35 @@ def _grp(entry: str) -> str:
     return entry.split("/")[0]
 
 
+WRAPS = {"Ranges": "unravel", "Ranges2D": "unravel_2d"}
+
+
 def judge_range(res: Result, entry: str, inp: Any, expected: Any, cls: str, replay_extra: dict[str, Any]) -> bool:
-    """entry = '<callable key>/<variant>'; cls = 'core' | 'grey-rev' | 'grey-ws' | 'grey-empty'"""
+    """entry = '<callable key>/<variant>'; cls = 'core' | 'grey-rev' | 'grey-ws' | 'grey-empty'.
+
+    replay_extra['raw'] is the canonical text of the same expression for the raw function: a failure of a
+    pydantic wrapper that the raw function shows identically is filed under the raw function's signature.
+    """
     grp = _grp(entry)
     ok, out = call(G[grp], inp)
     if ok and out == expected and type(out) is type(expected):
         return True
+    if not ok and cls != "core" and isinstance(out, ValueError):
+        res.count("admitted_rejections")
+        d = res.notes.setdefault("admitted_rejections_by_variant", {})
+        d[f"{entry}|{cls}"] = d.get(f"{entry}|{cls}", 0) + 1
+        return True
+    site, shown = grp, out
+    raw = replay_extra.get("raw")
+    if grp in WRAPS and raw is not None:
+        rok, rout = call(G[WRAPS[grp]], raw)
+        if (not ok and not rok) or (ok and rok and rout == out):
+            site, shown = WRAPS[grp], rout
     if not ok:
-        if cls != "core" and isinstance(out, ValueError):
-            res.count("admitted_rejections")
-            d = res.notes.setdefault("admitted_rejections_by_variant", {})
-            d[f"{entry}|{cls}"] = d.get(f"{entry}|{cls}", 0) + 1
-            return True
-        sig = f"C20|{grp}|raises-{type(out).__name__}|{cls}"
+        sig = f"C20|{site}|raises-{type(shown).__name__}|{cls}"
         msg = f"{entry}({inp!r}) raised {_exc(out)}; denotes {_short(expected)}"
     else:
-        sig = f"C20|{grp}|{_diff(out, expected)}|{cls}"
+        sig = f"C20|{site}|wrong-value|{_diff(out, expected)}"
         msg = f"{entry}({inp!r}) = {_short(out)}; denotes {_short(expected)}"
     res.violate(sig, msg, {"entry": entry, "input": inp, "cls": cls, **replay_extra})
     return False
@@ -990,7 +1004,10 @@ def _diff(out: Any, exp: Any) -> str:
             kinds.add("all-spurious")
         else:
             kinds.add("inner-" + _diff(o, e))
-    return "+".join(sorted(kinds)) or "differs"
+    for k in ("all-lost", "all-spurious"):  # one primary kind per case keeps signatures few
+        if k in kinds:
+            return k
+    return sorted(kinds)[0] if kinds else "differs"
 
 
 R1_WS = [
@@ -1022,14 +1039,14 @@ def run_r1(res: Result, alpha: str, ntok: int, prefix: tuple[int, ...], mode: st
         rev = any(t.rev for t in toks)
         base = "grey-rev" if rev else ("grey-empty" if not toks else "core")
         grey_ws = "grey-rev" if rev else "grey-ws"
-        extra = {"kind": "r1", "tokens": [t.val for t in toks]}
         comma = ",".join(texts)
+        extra = {"kind": "r1", "tokens": [t.val for t in toks], "raw": comma}
         cases: list[tuple[str, Any, str]] = [
             ("unravel/str", comma, base),
             ("Ranges/list-tokens", texts, "grey-rev" if rev else "core"),
         ]
         if not (wide and mode == "bulk"):
-            cases.append(("Ranges/str-space", " ".join(texts), grey_ws if toks else base))
+            cases.append(("Ranges/str-space", " ".join(texts), base))
         if mode != "bulk":
             cases += [("Ranges/str-comma", comma, base), ("Ranges/list-one", [comma], base)]
         if mode == "all" and toks and not wide:
@@ -1072,8 +1089,8 @@ def run_r2(res: Result, tier: str, ngroups: int, prefix: tuple[int, ...], ws: bo
         expected = M.eval_2d(abstract)
         greys = {g for o, i in groups for g in (o.grey, "" if i is None else i.grey) if g}
         base = "grey-rev" if "grey-rev" in greys else ("grey-empty" if greys or not groups else "core")
-        extra = {"kind": "r2", "groups": [[o, i] for o, i in abstract]}
         text = " ".join(gtexts)
+        extra = {"kind": "r2", "groups": [[o, i] for o, i in abstract], "raw": text}
         cases: list[tuple[str, Any, str]] = [
             ("unravel_2d/str", text, base),
             ("unravel_2d/str-2sp", "  ".join(gtexts), base),
@@ -1239,10 +1256,10 @@ def replay(doc: dict[str, Any]) -> Result:
     elif kind == "doip":
         check_doip_fstring(res, doc["label"], *doc["args"])
     elif kind == "r1":
-        judge_range(res, doc["entry"], doc["input"], M.eval_1d(_tokens(doc["tokens"])), doc["cls"], {"kind": "r1", "tokens": doc["tokens"]})
+        judge_range(res, doc["entry"], doc["input"], M.eval_1d(_tokens(doc["tokens"])), doc["cls"], {"kind": "r1", "tokens": doc["tokens"], "raw": doc.get("raw")})
     elif kind == "r2":
         groups = [(_tokens(o), None if i is None else _tokens(i)) for o, i in doc["groups"]]
-        judge_range(res, doc["entry"], doc["input"], M.eval_2d(groups), doc["cls"], {"kind": "r2", "groups": doc["groups"]})
+        judge_range(res, doc["entry"], doc["input"], M.eval_2d(groups), doc["cls"], {"kind": "r2", "groups": doc["groups"], "raw": doc.get("raw")})
     else:
         raise Broken(f"unknown replay kind {kind!r}")
     for v in res.violations:
